@@ -3,7 +3,12 @@ package main
 import "math/bits"
 
 // splitmix64: every random choice of the harness derives from one state (VERIF_SEED)
-type rng struct{ s uint64 }
+type rng struct {
+	s uint64
+	// failure sites used inside Custom bodies of the program being generated (each at most once: the
+	// traceback of a site depends on how deep the generator is nested, the model's site number does not)
+	customFatal int
+}
 
 func newRng(seed uint64) *rng { return &rng{s: seed*0x9E3779B97F4A7C15 + 0x1234567} }
 
